@@ -322,12 +322,17 @@ def hEvent (e : HEnv) (st : HState) (ev : String) : HState := Id.run do
   -- the values the snapshot lists now (it only changes in tick / restart, whose events carry a dump)
   if let some sn := snap then
     match sn.splitOn "/" with
-    | [_, _, ms, _, vals, probe] =>
+    | [cntS, _, ms, _, vals, probe] =>
       -- C12: whatever the snapshot's item handle reaches belongs to one stream, and not to one abandoned by a clearing restart
       let pvals : List Nat := if probe = "-" then [] else (probe.splitOn ",").filterMap fun x => ((x.splitOn ".").getD 1 "").toNat?
       let streamOf : Nat → Option Nat := fun v => (List.range s.streams.length).find? fun sid => (getStream s sid).contains (some v)
       let sids := (pvals.filterMap streamOf).eraseDups
       if sids.length > 1 then issues := issues ++ [s!"ORACLE C12 one snapshot reaches items of the streams {sids} (after {cmd})"]
+      -- ... and its item count is a count of items of that stream (not a total carried over from the stream before a restart)
+      if let [sid] := sids then
+        if let some cnt := cntS.toNat? then
+          if cnt > (getStream s sid).length then
+            issues := issues ++ [s!"ORACLE C12 the snapshot reaches stream {sid}, which only ever received {(getStream s sid).length} items, but counts {cnt} items (after {cmd})"]
       for sid in sids do
         if sid < s.clearedAt then
           issues := issues ++ [s!"ORACLE C12 the snapshot still reaches items of stream {sid}, abandoned by a clearing restart (current stream since then: {s.clearedAt}) (after {cmd})"]
